@@ -278,7 +278,8 @@ def own_sources(rng, spec, prefix, allow_x, nsrc):
     for k in range(nsrc):
         force = {"reference": "data"}
         if k == 0:
-            force.update(axis="y", kind="simple", shape=str(rng.choice(["scalar", "vec", "constvec"])))
+            # the first source makes the member's covariance positive definite on its own
+            force.update(axis="y", kind="simple", shape=str(rng.choice(["scalar", "vec", "constvec"])), corr=float(rng.choice([0.0, 0.0, np.round(rng.uniform(0.05, 0.9), 3)])))
         if ftype == "hist":
             force["relative"] = False
             force["axis"] = None
@@ -1088,6 +1089,11 @@ def run_case(ctx, case):
             if not all(mb.admissible() for mb in members):
                 ctx.discard("do_fit-skipped-inadmissible")
                 continue
+            if W.shared_mode:
+                okV, cond = pd_info(W.joint()[0])
+                if not okV or cond > 1e6:
+                    ctx.discard("do_fit-skipped-joint-covariance-ill-conditioned")
+                    continue
             ctx.op(k)
             a = op[1]
             try:
@@ -1100,6 +1106,9 @@ def run_case(ctx, case):
                             multi.asymmetric_parameter_errors
             except OpTimeout:
                 ctx.discard("do_fit-timeout")
+                return nontrivial
+            except np.linalg.LinAlgError:
+                ctx.discard("do_fit-minimizer-linear-algebra-failure")  # numerical Hessian of the backend not invertible: not a statement about multi-fits
                 return nontrivial
             except Exception:
                 ctx.violation(None, "multi.do_fit.no-exception", {"traceback": fmt_exc(), "op_index": i})
